@@ -1,2 +1,56 @@
 pub mod c10;
 pub mod c14;
+pub mod sess;
+
+/// `vh sess --scenarios file.jsonl --out dir [--prefix p] [--shards n] [--hang ms]`:
+/// runs every scenario of the file (one JSON object per line) and writes the traces.
+pub fn sess_main(a: &vh::args::Args) {
+    use serde_json::{json, Value};
+    use std::path::Path;
+    let text = std::fs::read_to_string(a.str("scenarios", "")).expect("read scenarios");
+    let dir = a.str("out", "/verif/out/sess");
+    let prefix = a.str("prefix", "sess");
+    let shards = a.num("shards", 16) as usize;
+    let hang = std::time::Duration::from_millis(a.num("hang", 5000));
+    let part = a.num("part", 0) as usize;
+    let parts = a.num("parts", 1) as usize;
+    vh::hooks::capture_panics();
+    vh::trace::global_install(vh::trace::Shards::create(Path::new(&dir), &prefix, shards));
+    let mut n = 0u64;
+    let mut hung = 0u64;
+    let mut panics = 0u64;
+    let mut leaked_io = 0u64;
+    let start = a.num("start", 0) as usize;
+    let mut resume: i64 = -1;
+    for (i, line) in text.lines().enumerate() {
+        if line.trim().is_empty() || i % parts != part || i < start {
+            continue;
+        }
+        let scn: Value = serde_json::from_str(line).expect("scenario json");
+        let o = sess::run(&scn, hang);
+        n += 1;
+        if o.hung {
+            hung += 1;
+        }
+        if !o.panics.is_empty() {
+            panics += 1;
+        }
+        if !o.io_dropped {
+            leaked_io += 1;
+        }
+        if o.hung {
+            // threads of a hung scenario are leaked and could write into later scenarios'
+            // traces: stop here, the orchestrator starts a fresh process for the rest
+            resume = i as i64 + 1;
+            break;
+        }
+    }
+    let sh = vh::trace::global_take().expect("trace");
+    let events = sh.events;
+    let files = sh.finish();
+    println!(
+        "{}",
+        json!({"scenarios": n, "events": events, "hung": hung, "resume": resume, "with_panics": panics, "io_not_released": leaked_io,
+               "files": files.iter().map(|p| p.to_string_lossy().to_string()).collect::<Vec<_>>()})
+    );
+}
